@@ -482,9 +482,15 @@ def _limit_blind_queue(ctx, rule):
     return c01.r2_heap_ownership(ctx, rule)
 
 
+def _grammar_order(ctx, rule):
+    # two processes must walk the values of a pre-terminal in the same order, or --limit N is not a prefix of the unlimited run
+    # (seed C09-k: list(set(values)) in the loader - string hashing differs per process)
+    from . import c08
+    return c08.r13_grammar_order(ctx, rule)
+
 def rules(tier):
     return [('C09.R1', r1_single_stdout_writer), ('C09.R2', r2_pairing), ('C09.R3', r3_threading), ('C09.R4', r4_limit_writers),
-            ('C09.R5', lambda c, r: __import__('sa.props.c04', fromlist=['x']).r12_output_point_total(c, r)), ('C09.R6', _limit_blind_queue)]
+            ('C09.R5', lambda c, r: __import__('sa.props.c04', fromlist=['x']).r12_output_point_total(c, r)), ('C09.R6', _limit_blind_queue), ('C09.R7', _grammar_order)]
 
 
 META = {
